@@ -452,7 +452,7 @@ func runFile(r *vcommon.Report, fi int, rng *rand.Rand, fut *fileUnderTest, base
 	// (a function of region kind and block length only, never of measured
 	// time); when a file exceeds its budget the expensive corruptions are
 	// thinned by a fixed stride, then the cheap ones if still needed.
-	budget := 9000.0 // estimated milliseconds of CPU per file
+	budget := 15000.0 // estimated milliseconds of CPU per file (the estimate is ~1.5x pessimistic on an idle machine)
 	if thorough {
 		budget = 60000
 	}
@@ -540,7 +540,7 @@ func runFile(r *vcommon.Report, fi int, rng *rand.Rand, fut *fileUnderTest, base
 	}
 	r.Count("estimated_cost_ms_enumerated", int64(total))
 	if total > budget {
-		const heavyMs = 8.0
+		heavyMs := max(8.0, fullMs+6)
 		var heavySum, lightSum float64
 		for _, w := range ws {
 			if w > heavyMs {
